@@ -1,6 +1,7 @@
 (* C13 / C11: the hand-written models of the shipped generators and smoothers (Model/Retro.v) equal the translations of
    the corresponding WHOLE methods of /repo's retrospective.py, regenerated on every run (Generated/SrcRetroGen.v, by
-   harness/py2gal.py with the configurations C13_SAMPLE_SEG ... of harness/src_functions.py), for all inputs. *)
+   harness/py2gal.py with the configurations C13_SAMPLE_SEG ... of harness/src_functions.py), for all inputs.
+   (create_random_holdout, which only C11 states, is in Proofs/C13Source_Holdout.v.) *)
 From Coq Require Import ZArith List Bool Arith Lia ZifyBool Permutation.
 From Batchie Require Import Lib.Sexp Lib.PyRt Model.Encode Model.Screen Model.Retro Model.Pairwise Model.RetroHoldout Model.RetroInit
   Generated.SrcRetro Generated.SrcRetroGen Proofs.PyRtLemmas Proofs.C11Lib Proofs.C11Select Proofs.C13SampleSeg Proofs.C13Optimal Proofs.C13NPlate Proofs.C13Filter Proofs.C11Init Proofs.C13SparseTerm Proofs.C11Source.
@@ -554,21 +555,6 @@ Proof.
   - rewrite <- (map_const_true rows). exact (Hcore (fun _ => true)).
   - exact (Hcore (fun r => negb (name_mem (r_plate r) (x :: l)))).
   - rewrite <- (map_const_true rows). exact (Hcore (fun _ => true)).
-Qed.
-
-(* ---------- create_random_holdout ---------- *)
-Theorem src_random_holdout_is_model : forall num den count rows ds,
-  src_random_holdout num den count rows ds = holdout_random num den count rows ds.
-Proof.
-  intros num den count rows ds. unfold src_random_holdout, holdout_random.
-  destruct ((num <? 0)%Z || (Z.pos den <? num)%Z); [reflexivity|].
-  unfold choose, ceil_size. destruct (take_ints ds) as [[idx ds']|t]; cbn [res_bind]; [|reflexivity].
-  destruct (negb (Z.of_nat (length idx) =? match count with Some c => c | None => ceil_frac (length rows) num den end)%Z);
-    cbn [res_bind]; [reflexivity|].
-  unfold set_true. rewrite repeat_false_vof_idx, vor_vof_idx. cbn [app].
-  unfold split_by, screen_without, screen_observed_of.
-  destruct (construct (vselect (map negb (vof_idx (length rows) idx)) rows)) as [k|t]; cbn [res_bind]; [|reflexivity].
-  destruct (construct (map (set_mask true) (vselect (vof_idx (length rows) idx) rows))) as [h|t]; reflexivity.
 Qed.
 
 (* ---------- SparseCoverPlateGenerator._generate_and_unmask_initial_plate ---------- *)
